@@ -5,8 +5,21 @@ from .lexeme import decoder_section
 from ..rtc import c06_termination as drv
 
 
+def error_construction_section():
+    """constructing the documented errors must not raise anything itself (C06: 'fail only with the documented error types')"""
+    from ..harness import Section
+    from ..pyvc.verify import verify_contracts
+    from ..pyvc.objtheory import ObjTheory
+    from ..contracts import exceptions as ce
+    s = Section("error-construction", "smt",
+                rule="firstpos, linecount, LexerError.__init__ return for every (msg, doc, pos, lexeme): no exception can leave them")
+    verify_contracts(s, ce.contracts(), ObjTheory, ["pvl.exceptions"], jobs=1)
+    s.assumptions += ["str.count / rfind / split / join / slicing never raise; text[i] raises IndexError outside [-len, len)"]
+    return s
+
+
 def run(ctx):
-    return [parser_section(ctx), decoder_section(ctx), protocol_section(), entry_section()] + drv.sections(ctx)
+    return [parser_section(ctx), decoder_section(ctx), error_construction_section(), protocol_section(), entry_section()] + drv.sections(ctx)
 
 
 def replay(data):
